@@ -1277,6 +1277,7 @@ class Cycles:
 
         if dtype is not None:
             if dtype is int:
+                cycle_vals = cycle_vals.copy()  # Don't work in place...
                 cycle_vals[np.isnan(cycle_vals)] = -1
             cycle_vals = cycle_vals.astype(dtype)
 
